@@ -254,8 +254,10 @@ func envMS(name string, def int) time.Duration {
 // A call on a file of a few hundred bytes needs microseconds of CPU and never sleeps. It is declared hung when
 //   - its thread has burnt spinBudget of CPU time since the first poll (a runaway retry loop; robust against a loaded
 //     machine, where wall time says little), or
-//   - its thread has been asleep (state S: parked on a lock or channel) for sleepBudget without interruption
-//     (a dead-lock: nothing in Write/Close/Sync waits for anything but the rotator's own mutex), or
+//   - its thread has been asleep (state S) for sleepBudget without interruption AND the goroutine dump shows a
+//     goroutine inside the rotation package parked on a lock/semaphore/channel (a dead-lock: nothing in
+//     Write/Close/Sync waits for anything but the rotator's own mutex; a thread merely held up by the scheduler or a
+//     garbage collection is not mistaken for one), or
 //   - wallBudget has passed.
 var (
 	spinBudget  = envMS("C12_SPIN_MS", 250)
@@ -264,6 +266,25 @@ var (
 )
 
 const maxHangs = 3 // after that many hung calls the rest of the stream is skipped (the violation is established)
+
+// blockedInLibrary reports whether some goroutine with a frame of the rotation package on its stack is parked on a lock,
+// semaphore, channel or condition (the states the runtime prints in the goroutine header).
+func blockedInLibrary() bool {
+	buf := make([]byte, 1<<20)
+	buf = buf[:runtime.Stack(buf, true)]
+	for _, g := range strings.Split(string(buf), "\n\n") {
+		if !strings.Contains(g, "toolbox/log/rotation.") {
+			continue
+		}
+		head, _, _ := strings.Cut(g, "\n")
+		for _, st := range []string{"semacquire", "sync.Mutex.Lock", "sync.RWMutex", "chan receive", "chan send", "select", "sync.Cond.Wait", "sync.WaitGroup"} {
+			if strings.Contains(head, "["+st) {
+				return true
+			}
+		}
+	}
+	return false
+}
 
 // guard runs calls into the library under the deadline rules above.
 type guard struct {
@@ -289,24 +310,41 @@ func (g *guard) call(f func() wres, killDir string) (wres, bool) {
 	haveBase := false
 	var asleepSince time.Time
 	spinning := false
+	sleepPolls := 0
 wait:
 	for {
 		select {
 		case res := <-ch:
 			return res, true
 		case <-tick.C:
+			select { // a result that is already there wins over any judgement below
+			case res := <-ch:
+				return res, true
+			default:
+			}
 			state, cpu, ok := threadState(w.tid)
 			if ok && !haveBase {
 				cpu0, haveBase = cpu, true
 			}
 			if ok && state == 'S' {
+				sleepPolls++
 				if asleepSince.IsZero() {
 					asleepSince = time.Now()
-				} else if time.Since(asleepSince) >= sleepBudget {
-					break wait
+				} else if time.Since(asleepSince) >= sleepBudget && sleepPolls >= 25 {
+					// asleep for a long time: a dead-lock only if a goroutine inside the library is really parked on a
+					// lock or channel (and not merely held up by the scheduler or the garbage collector)
+					if blockedInLibrary() {
+						select {
+						case res := <-ch:
+							return res, true
+						default:
+						}
+						break wait
+					}
+					asleepSince, sleepPolls = time.Time{}, 0
 				}
 			} else {
-				asleepSince = time.Time{}
+				asleepSince, sleepPolls = time.Time{}, 0
 			}
 			if ok && cpu-cpu0 >= spinBudget {
 				spinning = true
